@@ -678,11 +678,6 @@ def enc_ids(slots):
     return [len(tbl)] + [x for t in tbl for x in t]
 
 
-def needed_defs(c, t):
-    """definitions are numbered; the whole prefix up to the largest number mentioned is sent"""
-    return c.defs[:t[1] + 1] if t[0] == "named" else []
-
-
 def encode_case(c, case, slots):
     """slots: [(index, generation, marker id or -1)] as printed by the program"""
     return [0] + enc_env(c.defs[:max_def(case["ty"]) + 1]) + enc_ty(case["ty"]) + enc_value(case["value"], slots) + enc_ids(slots)
